@@ -96,6 +96,8 @@ def cases(tier, seed):
         out.append({"kind": "big", "cls": "big", "entry": cls, "idx": k, "seed": seed})
     for rep in range(24 if tier == "quick" else 400):
         out.append({"kind": "laws", "cls": "laws", "idx": rep, "maxd": 6 if tier == "quick" else 12, "seed": seed})
+    for rep in range(16 if tier == "quick" else 200):
+        out.append({"kind": "storage_forms", "cls": "storage_forms", "idx": rep, "seed": seed})
     for rep in range(4 if tier == "quick" else 16):
         out.append({"kind": "layouts", "cls": "layouts", "idx": rep, "seed": seed})
     return out
@@ -125,8 +127,70 @@ def run_case(spec, ctx, R):
         _laws(spec, ctx, R)
     elif k == "layouts":
         _layouts(spec, ctx, R)
+    elif k == "storage_forms":
+        _storage_forms(spec, ctx, R)
     else:
         raise ValueError(k)
+
+
+def _storage_forms(spec, ctx, R):
+    """One quaternion matrix held by SparseQuaternionMatrix containers whose four components arrive in every storage form scipy offers
+    (gen.sparse_storage_forms: CSC/COO/LIL/DOK/BSR/DIA with junk padding, raw CSR with duplicate or cancelling duplicate entries, unsorted
+    indices, stored zeros) and in a MIX of forms per component.  All of them denote the same matrix (form.toarray() == component exactly),
+    so the Frobenius norm, ^H and the products must be those of that matrix."""
+    U = R.utils
+    rng = gen.rng_for(spec["seed"], "c01forms", spec["idx"])
+    m, kk, n = (int(x) for x in rng.integers(1, 7, size=3))
+    kind = ["int", "gauss", "banded", "int_sparse"][spec["idx"] % 4]
+    if kind == "banded":
+        A = gen.entries(rng, "int", m, kk)
+        ii, jj = np.indices((m, kk))
+        A = A * (np.abs(ii - jj) <= 1)
+    elif kind == "int_sparse":
+        A = gen.entries(rng, "int", m, kk) * (rng.random((m, kk)) < 0.5)
+    else:
+        A = gen.entries(rng, kind, m, kk)
+    B = gen.entries(rng, "int" if kind != "gauss" else "gauss", kk, n)
+    ctx.distinct("storage_forms", A, B)
+    comps = _comps(A)
+    per_comp = [dict(gen.sparse_storage_forms(rng, c)) for c in comps]
+    labels = [l for l in per_comp[0] if all(l in d for d in per_comp)]
+    ex = _fro_exact(A)
+    tol = 8 * (m * kk + 4) * refq.EPS * ex + 1e-300
+    SB = R.sparse_from_dense(B)
+    combos = [(l, [l] * 4) for l in labels]
+    for t in range(3):
+        pick = [labels[int(x)] for x in rng.integers(0, len(labels), size=4)]
+        combos.append(("mixed", pick))
+    for lab, pick in combos:
+        site = "storage:" + lab
+        try:
+            S = U.SparseQuaternionMatrix(*[per_comp[c][pick[c]].copy() for c in range(4)], A.shape)
+            f1 = float(U.quat_frobenius_norm(S))
+            ctx.check("fro_formats", abs(f1 - ex), tol, site=site, detail={"forms": pick, "got": f1, "exact": ex})
+            ctx.check("fro_formats", bool(np.array_equal(refq.fa(densify(S)), refq.fa(A))), site=site + ":container_still_denotes_A")
+            S = U.SparseQuaternionMatrix(*[per_comp[c][pick[c]].copy() for c in range(4)], A.shape)
+            SH = U.quat_hermitian(S)
+            ctx.check("herm_definition", bool(np.array_equal(refq.fa(densify(SH)), refq.fa(refq.herm(A)))), site=site)
+            ctx.check("fro_herm", abs(float(U.quat_frobenius_norm(SH)) - ex), tol, site=site)
+            S = U.SparseQuaternionMatrix(*[per_comp[c][pick[c]].copy() for c in range(4)], A.shape)
+            _t2_check(ctx, "product_T2", "sd:" + site, U.quat_matmat(S, B.copy()), A, B)
+            _t2_check(ctx, "product_T2", "op_sd:" + site, S @ B.copy(), A, B)
+            S = U.SparseQuaternionMatrix(*[per_comp[c][pick[c]].copy() for c in range(4)], A.shape)
+            _t2_check(ctx, "product_T2", "ss:" + site, densify(U.quat_matmat(S, SB)), A, B)
+        except Exception as e:
+            ctx.check("fro_formats", False, site=site, detail={"exception": repr(e)[:300], "forms": pick})
+        ctx.hit("storage_form:" + lab)
+    # the legacy component-form product on non-canonical sparse components
+    for lab in ("csr_duplicates", "coo_duplicates", "csr_unsorted", "dia_padded", "csc"):
+        if lab not in labels:
+            continue
+        try:
+            r = U.timesQsparse(*[per_comp[c][lab].copy() for c in range(4)], *[sparse.csr_matrix(x) for x in _comps(B)])
+            Cq = quaternion.as_quat_array(np.stack([np.asarray(x.toarray() if hasattr(x, "toarray") else x) for x in r], axis=-1))
+            _t2_check(ctx, "product_T2", "tq_sparse:storage:" + lab, Cq, A, B)
+        except Exception as e:
+            ctx.check("product_T2", False, site="tq_sparse:storage:" + lab, detail={"exception": repr(e)[:300]})
 
 
 def _basis(spec, ctx, R):
